@@ -579,7 +579,12 @@ impl Ctx {
         let code = match run.code {
             Some(c) => c,
             None => {
-                self.rep.internal.push(format!("the binary could not be run / was killed: {}", run.stderr_tail()));
+                if run.timed_out {
+                    // the command neither finished nor failed: no generated file, no error message
+                    self.rep.fail("command-does-not-terminate", info(json!({"args": args.iter().map(|a| short(a, 100)).collect::<Vec<_>>(), "observed": run.stderr_tail()})));
+                } else {
+                    self.rep.internal.push(format!("the binary could not be run / was killed: {}", run.stderr_tail()));
+                }
                 return;
             }
         };
@@ -867,6 +872,24 @@ pub fn run(a: &Args) -> i32 {
                 case.edit = Some("missing-query-file".into());
             }
             ctx.run_case("dotdot-name", i, &case);
+        }
+        // one large document through rustfmt (the formatted text is well beyond any pipe buffer): the command must end
+        for (i, no_formatting) in [(0u64, false), (1u64, true)] {
+            let n_fields = 1600;
+            let schema_text = format!("type Query {{\n{}}}\n", (0..n_fields).map(|k| format!("  field{}: Int\n", k)).collect::<String>());
+            let query_text = format!("query Big {{\n{}}}\n", (0..n_fields).map(|k| format!("  field{}\n", k)).collect::<String>());
+            let case = Case {
+                schema_text,
+                schema_ext: "graphql".into(),
+                query_text,
+                query_name: "big.graphql".into(),
+                query_form: "rel".into(),
+                flags: Flags { no_formatting, ..Flags::default() },
+                placement: Placement::Beside,
+                preseed: None,
+                edit: None,
+            };
+            ctx.run_case("large-output", i, &case);
         }
         for i in 0..n_paths {
             let mut rng = case_rng(a.seed, "paths", i);
